@@ -25,6 +25,13 @@ def build_pulse(desc):
         return constant_pulse_numerical
     if desc[0] == "gaussian":
         return GaussianPulse(loc=desc[1], scale=desc[2])
+    if desc[0] == "user-smooth":
+        # a user-defined smooth pulse that passes the library's own validation: f = (1 - d) * 30 x^2 (1-x)^2, F its running integral,
+        # so F(1) = 1 - d with d below the validator's tolerance (an un-renormalised waveform)
+        from quantum_gates._gates.pulse import Pulse
+        d = desc[1]
+        return Pulse(pulse=lambda x, d=d: (1 - d) * 30 * x ** 2 * (1 - x) ** 2,
+                     parametrization=lambda x, d=d: (1 - d) * x ** 3 * (10 - 15 * x + 6 * x ** 2), perform_checks=True)
     raise KeyError(desc)
 
 
@@ -58,6 +65,7 @@ def gate_set_descs(rng, thorough=False):
         out.append(["Gates", d])
     out.append(["ScaledNoiseGates", 0.37, ["constant"]])
     out.append(["ScaledNoiseGates", 2.5, ["gaussian", 0.4, 0.25]])
+    out.append(["Gates", ["user-smooth", 5e-7]])
     return out
 
 
